@@ -1,5 +1,6 @@
 import VOPyVerif.Proofs.AdaptiveVol
 import VOPyVerif.Proofs.AdaptivePoints
+import VOPyVerif.Proofs.AdaptiveVh
 import Mathlib.Data.Real.Basic
 /-!
 # C18 — adaptive discretisation tiles the domain; VOGP_AD declares only finest leaves
@@ -315,5 +316,135 @@ example : ∀ a, (Algo.init 2 2 2).run [.evalRefine 0 true, .endRound, .discard 
 
 example (c : Cell) (x : List ℝ) (hx : InCell x c) : ∃ c' ∈ childCells c, InCell x c' :=
   (children_tile_parent ℝ c).1 x hx
+
+/-! ## EXTENSION — `calculate_design_vh`, `should_refine_design`'s comparison, `compute_beta`
+
+About the `RealLike` terms of `Model/AdaptiveVh.lean` (helpers: `Proofs/AdaptiveVh.lean`), which the
+driver evaluates at `Float` against the real functions (ops `vh`, `refine`, `cmp`, `adbeta`).  The
+Boolean input `vh` of `Space.shouldRefine` above is no longer opaque: it is `Vh.allLe` of these
+terms.  Statements about values are at `ℝ` (the same term). -/
+
+section VhTerms
+
+/-- **The term equals the stated closed form** (every constant of the code visible):
+`Vh_i = 4·T·(√(C2 + 2·t2 + t3 + t4) + C3)` with `Cki = √var_i / ls_i`,
+`T = Cki·(√d/2)·(1/2)^depth`, `C1 = ((√d+1)·√d/2)^d·Cki`, `C2 = 2·log(2·C1²·π²/6)`,
+`C3 = 1 + 2.7·√(2d·log 2)`, `t2 = log(2·(depth+1)²·π²·m/(6δ))`, `t3 = depth·log 4`,
+`t4 = max(0, −4d·log T)`. -/
+theorem vh_closed_form (d m : Nat) (δ : ℝ) (depth : Int) (ls var : ℝ) :
+    let Cki := Real.sqrt var / ls
+    let T := Cki * (1 / 2 * Real.sqrt d * (1 / 2 : ℝ) ^ depth)
+    let C1 := ((Real.sqrt d + 1) * Real.sqrt d / 2) ^ d * Cki
+    let C2 := 2 * Real.log (2 * C1 ^ 2 * Real.pi ^ 2 / 6)
+    let C3 := 1 + 27 / 10 * Real.sqrt ((2 * d : ℕ) * Real.log 2)
+    let t2 := Real.log (2 * ((depth : ℝ) + 1) ^ 2 * Real.pi ^ 2 * m / (6 * δ))
+    let t3 := (depth : ℝ) * Real.log 4
+    let t4 := max 0 (-(4 * (d : ℝ)) * Real.log T)
+    (Vh.vhEntry d m δ depth ls var : ℝ) = 4 * T * (Real.sqrt (C2 + 2 * t2 + t3 + t4) + C3) := by
+  intro Cki T C1 C2 C3 t2 t3 t4
+  rw [Vh.vhEntry_real, Vh.term4_real, Vh.term1_real, Vh.c2_real, Vh.c1_real, Vh.c3_real, Vh.term2_real,
+    Vh.term3_real]
+
+/-- **`Vh` is positive** for a positive kernel variance and lengthscale (domain dimension ≥ 1), at
+every depth and for every δ: every entry `calculate_design_vh` returns is `> 0`. -/
+theorem vh_pos (d m : Nat) (hd : 1 ≤ d) (δ : ℝ) (pointDepth : Nat) (offset : Int)
+    (lsvar : List (ℝ × ℝ)) (h : ∀ p ∈ lsvar, 0 < p.1 ∧ 0 < p.2) :
+    (Vh.designVh d m δ pointDepth offset lsvar).length = lsvar.length ∧
+    ∀ x ∈ Vh.designVh d m δ pointDepth offset lsvar, 0 < x := by
+  refine ⟨by simp [Vh.designVh], ?_⟩
+  intro x hx
+  obtain ⟨p, hp, rfl⟩ := List.mem_map.mp hx
+  exact Vh.vhEntry_pos d m hd δ _ (h p hp).1 (h p hp).2
+
+/-- **`Vh` strictly decreases with the depth** (no restriction on `term4`): one level deeper halves
+`term1` while the bracket grows by less than a factor 2, because the radicand grows by at most
+`(6 + 4d)·log 2 < C3²`. -/
+theorem vh_strictAnti_depth (d m : Nat) (hd : 1 ≤ d) (hm : 0 < m) {δ ls var : ℝ} (hδ : 0 < δ)
+    (hls : 0 < ls) (hv : 0 < var) (h h' : Nat) (hlt : h < h') :
+    (Vh.vhEntry d m δ (h' : Int) ls var : ℝ) < Vh.vhEntry d m δ (h : Int) ls var := by
+  induction h' with
+  | zero => omega
+  | succ k ih =>
+    have step := Vh.vhEntry_succ_lt d m hd hm (k : Int) (by positivity) hδ hls hv
+    rcases Nat.lt_succ_iff_lt_or_eq.mp hlt with hk | rfl
+    · exact lt_trans (by exact_mod_cast step) (ih hk)
+    · exact_mod_cast step
+
+/-- **The refinement threshold `‖Vh‖` strictly decreases with the depth**: one level deeper, a node
+needs a strictly smaller posterior `scale·‖std‖` to be refined again (positive hyper-parameters, at
+least one objective). -/
+theorem vh_norm_strictAnti_depth (d m : Nat) (hd : 1 ≤ d) (hm : 0 < m) {δ : ℝ} (hδ : 0 < δ) (h : Nat)
+    (lsvar : List (ℝ × ℝ)) (hne : lsvar ≠ []) (hpos : ∀ p ∈ lsvar, 0 < p.1 ∧ 0 < p.2) :
+    (Vh.refineRhs d m δ (h + 1) lsvar : ℝ) < Vh.refineRhs d m δ h lsvar :=
+  Vh.refineRhs_succ_lt d m hd hm hδ h lsvar hne hpos
+
+/-- **The depth gate dominates**: at or beyond the maximum depth `should_refine_design` answers
+`False` whatever `Vh`, the posterior and the scale are — in every carrier (`Float` included). -/
+theorem shouldRefine_depth_gate {α : Type} [RealLike α] [LeB α] (d m : Nat) (δ : α)
+    (pointDepth maxDepth : Nat) (h : maxDepth ≤ pointDepth) (lsvar : List (α × α))
+    (scale diagCov : List α) :
+    Vh.shouldRefine d m δ pointDepth maxDepth lsvar scale diagCov = false :=
+  Vh.shouldRefine_gate d m δ pointDepth maxDepth h lsvar scale diagCov
+
+/-- **The decision, at `ℝ`**: refine iff the node is below the maximum depth and, for every entry of
+the scale, `scale_j·‖std‖ ≤ ‖Vh‖` (non-strict: a tie refines), `‖std‖² = Σ (√cov_jj)²`,
+`‖Vh‖² = Σ Vh_i²`. -/
+theorem shouldRefine_real_iff (d m : Nat) (δ : ℝ) (pointDepth maxDepth : Nat) (lsvar : List (ℝ × ℝ))
+    (scale diagCov : List ℝ) :
+    Vh.shouldRefine d m δ pointDepth maxDepth lsvar scale diagCov = true ↔
+      pointDepth < maxDepth ∧
+      ∀ s ∈ scale, s * Real.sqrt ((diagCov.map (fun v => Real.sqrt v * Real.sqrt v)).sum) ≤
+        Real.sqrt (((Vh.designVh d m δ pointDepth 0 lsvar).map (fun x => x * x)).sum) := by
+  by_cases h : pointDepth < maxDepth
+  · rw [Vh.shouldRefine_below d m δ pointDepth maxDepth h, Vh.allLe_real]
+    simp only [h, true_and, Vh.refineLhs, Vh.refineRhs, Vh.norm_real, List.mem_map, List.map_map,
+      forall_exists_index, and_imp, forall_apply_eq_imp_iff₂, Function.comp_def, RealLike.sqrt_real]
+  · rw [Vh.shouldRefine_gate d m δ pointDepth maxDepth (Nat.le_of_not_lt h)]
+    simp [h]
+
+/-- **The opaque Boolean of the cell-tree model is this comparison**: feeding
+`Vh.allLe (scale·‖std‖) ‖Vh‖` (computed at the node's depth) into `Space.shouldRefine` gives exactly
+`Vh.shouldRefine` with the space's maximum depth — so the invariants above (`run_depth_bound`, …)
+hold for runs whose comparison results come from the `Vh` term. -/
+theorem shouldRefine_refines_space {α : Type} [RealLike α] [LeB α] (s : Space) (i : Nat) (p : Node)
+    (hp : s.nodes[i]? = some p) (d m : Nat) (δ : α) (lsvar : List (α × α)) (scale diagCov : List α) :
+    s.shouldRefine i (Vh.allLe (Vh.refineLhs scale diagCov) (Vh.refineRhs d m δ p.depth lsvar)) =
+      some (Vh.shouldRefine d m δ p.depth s.maxDepth lsvar scale diagCov) := by
+  simp only [Space.shouldRefine, hp, Vh.shouldRefine]
+
+/-- **`compute_beta` equals the closed formula and is positive**: for a positive contraction `c`,
+`β = (0.1 + √(σ²·log(det(K+I)/σ²) − 2·log δ)) / √c > 0`; and the radicand is non-negative (no NaN)
+whenever `0 < σ² ≤ det(K+I)` and `0 < δ ≤ 1`. -/
+theorem vogpAdBeta_closed_form (nv δ det : ℝ) {c : ℝ} (hc : 0 < c) :
+    Vh.vogpAdBeta nv δ det c =
+        (1 / 10 + Real.sqrt (nv * Real.log (det / nv) - 2 * Real.log δ)) / Real.sqrt c ∧
+    0 < Vh.vogpAdBeta nv δ det c ∧
+    (0 < nv → nv ≤ det → 0 < δ → δ ≤ 1 → 0 ≤ nv * Real.log (det / nv) - 2 * Real.log δ) := by
+  have hb : 0 < 1 / 10 + Real.sqrt (nv * Real.log (det / nv) - 2 * Real.log δ) := by
+    have := Real.sqrt_nonneg (nv * Real.log (det / nv) - 2 * Real.log δ); linarith
+  have e : Vh.vogpAdBeta nv δ det c =
+      (1 / 10 + Real.sqrt (nv * Real.log (det / nv) - 2 * Real.log δ)) / Real.sqrt c := by
+    rw [Vh.vogpAdBeta_real, show 1 / nv * det = det / nv by ring, Real.sqrt_div (sq_nonneg _),
+      Real.sqrt_sq hb.le]
+  refine ⟨e, ?_, ?_⟩
+  · rw [e]; exact div_pos hb (Real.sqrt_pos.mpr hc)
+  · intro hnv hdet hδ hδ1
+    have h1 : 0 ≤ Real.log (det / nv) := Real.log_nonneg (by rw [le_div_iff₀ hnv]; linarith)
+    have h2 : Real.log δ ≤ 0 := Real.log_nonpos hδ.le hδ1
+    have : 0 ≤ nv * Real.log (det / nv) := mul_nonneg hnv.le h1
+    linarith
+
+/-- non-vacuity of the gate and of the link: a root node (depth 1) of a space with maximum depth 1 is
+never refined; with maximum depth 3 the decision is the comparison -/
+example (lsvar : List (Float × Float)) (scale diag : List Float) :
+    Vh.shouldRefine 2 2 (0.05 : Float) 1 1 lsvar scale diag = false :=
+  shouldRefine_depth_gate 2 2 _ 1 1 (le_refl 1) lsvar scale diag
+
+example : (Vh.vhEntry 2 2 (0.05 : ℝ) (3 : Int) 1 1 : ℝ) < Vh.vhEntry 2 2 (0.05 : ℝ) (1 : Int) 1 1 := by
+  have := vh_strictAnti_depth 2 2 (by norm_num) (by norm_num) (δ := 0.05) (ls := 1) (var := 1)
+    (by norm_num) (by norm_num) (by norm_num) 1 3 (by norm_num)
+  exact_mod_cast this
+
+end VhTerms
 
 end VOPy.C18
